@@ -655,9 +655,15 @@ class CausalInference(object):
                 var: state for var, state in zip(adjustment_set, state_comb)
             }
             evidence = {**do, **adj_evidence}
+            # Index by state number: keyword arguments would require string variable names.
+            p_z_state = p_z.values[
+                tuple(
+                    p_z.get_state_no(var, adj_evidence[var]) for var in p_z.variables
+                )
+            ]
             values.append(
                 infer.query(variables, evidence=evidence, show_progress=False)
-                * p_z.get_value(**adj_evidence)
+                * p_z_state
             )
 
             if show_progress and config.SHOW_PROGRESS:
